@@ -21,8 +21,7 @@ ASSUMPTIONS = [
     "sheet parts / substreams are well formed (cell reading is the domain of C01-C04); xls code page 1200, BIFF8",
     "ods has no date-system flag at the cell level (dates are ISO strings): the flag conjunct is checked for xlsx, xlsb, xls",
 ]
-KNOWN_IDS = {("xlsx", "1"): "F30-rid-prefix", ("xlsx", "2"): "K-xlsx-name-cdata",
-             ("xls", "1"): "K-xls-name-relative", ("ods", "1"): "K-ods-names-whitespace"}
+KNOWN_IDS = {}    # no known class is left (the four former ones were repaired: notes/C16_fixed.json)
 SHARDS = 8
 
 
@@ -81,8 +80,8 @@ def xlsx_case(rng, cid, known_ok=True):
     wb = gen_wb(rng, "xlsx")
     pfx = rng.choice(["", "", "x", "main"])
     rpfx = rng.choice(["r", "r", "r", "relationships"])
-    if known_ok and rng.random() < 0.04:
-        rpfx = rng.choice(["rel", "R", "ns1"])
+    if known_ok and rng.random() < 0.15:
+        rpfx = rng.choice(["rel", "R", "ns1", "relationship"])
     n = len(wb["sheets"])
     ridn = list(range(1, n + 1)); rng.shuffle(ridn)
     filen = list(range(1, n + 1)); rng.shuffle(filen)
@@ -113,7 +112,7 @@ def xlsx_case(rng, cid, known_ok=True):
     for dn in wb["dnames"]:
         text = rng.choice(FORMULA_TEXT) if rng.random() < 0.7 else mg.gen_name(rng, 20)
         cd = 0
-        if known_ok and rng.random() < 0.05 and "]]>" not in text:
+        if known_ok and rng.random() < 0.15 and "]]>" not in text:
             cd = 1
         cuts = sorted(rng.randrange(0, len(text) + 1) for _ in range(rng.choice([0, 0, 1, 2, 3])))
         cuts = [b - a for a, b in zip([0] + cuts, cuts)]
@@ -246,7 +245,7 @@ def xls_case(rng, cid, known_ok=True):
     dn = wb["dnames"] if xtis else []
     wb["dnames"] = dn
     for nm in dn:
-        rel = known_ok and rng.random() < 0.06
+        rel = known_ok and rng.random() < 0.3
         def cref():
             return "%d.%d.%d.%d" % (rng.choice([0, 1, 9, 65535]), rng.choice([0, 1, 25, 26, 255, 16383]),
                                     int(rel and rng.random() < 0.7), int(rel and rng.random() < 0.7))
@@ -321,8 +320,8 @@ def ods_case(rng, cid, known_ok=True):
         names.append(":".join([hxs(dn), hxs(text), str(int(rng.random() < 0.4)), str(int(rng.random() < 0.5)),
                                attrs_wire(pre_), attrs_wire(disjoint(rng, npool, pre_))]))
     njunk = []
-    if known_ok and rng.random() < 0.05:
-        njunk = rng.choice([[T("\n  ")], [O]])
+    if known_ok and rng.random() < 0.3:
+        njunk = rng.choice([[T("\n  ")], [O], [T("\n"), O, T(" ")]])
     args = [wire(junk_events_ods(rng)) or "-", wire(njunk) or "-", str(int(rng.random() < 0.5)),
             lst(["%s:%s" % (hx(a), b) for a, b in styles]), lst(sheets), ";".join(contents) or "-", lst(names)]
     return {"id": cid, "fmt": "ods", "wb": wb, "line": "%s\tmeta\tods\t%s" % (cid, "\t".join(args)),
@@ -527,7 +526,7 @@ def perturb_events(rng, evs):
                 a[j] = (rng.choice(["name", "state", "r:id", "id", "table:name", "table:display", "Id", "Target",
                                     "table:style-name", "date1904", "style:name", "relationships:id"]), a[j][1])
                 if len(set(x for x, _ in a)) != len(a) or \
-                   (a[j][0] in mg.RAW_ATTRS and any(ch in a[j][1] for ch in "&<>\"'")):
+                   (mg.is_raw_attr(a[j][0]) and any(ch in a[j][1] for ch in "&<>\"'")):
                     a = list(e[2])
             evs[k] = ("S", e[1], tuple(a))
         elif r < 0.65:
@@ -633,6 +632,10 @@ def raw_cases(ctx, n, tag):
         if not same(impl, mm):
             if fmt == "xls" and mm is not None and mm.startswith("ok/") and impl in ("err", "panic"):
                 ctx.count("raw:xls:sheet-loop-outside-model")
+            elif fmt == "xlsb" and mm == "err" and impl.startswith("ok/") and "23524546" in impl:
+                # C14's Ptg.v still mirrors the pre-hardening parse_formula: an out-of-range ixti was
+                # a panic (bridged to err in Meta.v), the code now prints "#REF"
+                ctx.count("raw:xlsb:ptg-model-out-of-date (#REF for an out-of-range ixti)")
             elif mm == "fuel" and impl == "timeout":
                 ctx.count("raw:ods:endless-read_table")
             else:
